@@ -107,9 +107,12 @@ def build(lexmod):
                 rec['calls'].append('gut')
                 # its effect (its own contract): some token or None, the lexer state moves on
                 self.havoc_state(o, 'after_gut%d' % len(rec['calls']), e)
-                lx.fields['lexpos'] = Int.fresh('lexpos_after')
+                old_pos = lx.fields['lexpos']
                 if e.decide_free('gut_returns_none'):
                     return None
+                # assumed ply contract: a token consumes at least one character of the text and ends inside it
+                lx.fields['lexpos'] = Int.fresh('lexpos_after')
+                e.assume(z3.And(lx.fields['lexpos'].t > old_pos.t, lx.fields['lexpos'].t <= text.n))
                 t = tok('tok%d' % len(rec['calls']))
                 rec['last_tok'] = t
                 return t
@@ -188,12 +191,12 @@ def build(lexmod):
 
     class SelfFields(dict):
         pass
-    outer = Loop(inv=['lexer is self.lexer'], types={'self': Rehavoc(st), 'tok': OneOf(Const(None), Const(None))}, modifies=('self',))
+    outer = Loop(inv=['lexer is self.lexer', 'lexer.lexpos <= len(lexer.lexdata)'], variant='len(lexer.lexdata) - lexer.lexpos', types={'self': Rehavoc(st), 'tok': OneOf(Const(None), Const(None))}, modifies=('self',))
     inner = Loop(inv=['pos >= lexer.lexpos', 'pos < len(lexer.lexdata)', 'skip(lexer.lexdata, pos) == skip(lexer.lexdata, lexer.lexpos)',
                       'char == lexer.lexdata[pos]'],
-                 types={'pos': Int, 'char': CharT()})
+                 types={'pos': Int, 'char': CharT()}, variant='len(lexer.lexdata) - pos')
     cs.append(Contract(LEX + ':Lexer._token', params={'self': st},
-                       requires=['self.lexer.lexpos >= 0'],
+                       requires=['self.lexer.lexpos >= 0', 'self.lexer.lexpos <= len(self.lexer.lexdata)'],
                        ensures=['result is None or result is last_tok()'],
                        loops=[outer, inner], env=env, hints={'index_raises': True},
                        uses={'loop1.body': ['unfolded(lexer.lexdata, pos)', 'unfolded(lexer.lexdata, pos + 1)'],
